@@ -51,6 +51,11 @@ CLAIMS = {
         'macro timeFromYearAsDays equals the integer day count. ISO parser: every read inside the text for ANY string, fraction loop terminates, numeric zone offsets shift the instant by the stated offset.',
    note=TB + 'Not decided: hour/minute/second extraction in calc() (floating fract), the floating entry floor(t/86400) of yearFromTime, formatting (printf), the HTTP-date branch (split/Map), local time, the custom-format constructor.',
    technique='CBMC code contracts (DFCC) over a symbolic day number; loop contract for the parser'),
+ 'C11': dict(level='proof', design='6 C11',
+   text='WebSocket::send frame header proved against an RFC 6455 5.2 specification for EVERY payload length 1..2^31-1, frame type and masking key (7/16/64-bit length forms at exactly 125/126 and 65535/65536, network order). '
+        'WebSocket::receive header decoding for ANY bytes from the peer never sizes the buffer with a negative length. Word-wise masking loop = per-octet RFC masking (bounded to 13-byte payloads).',
+   note=TB + 'StreamBuffer and socket operations are ghost wire stubs whose byte order behaviour is the contract proved in C16. Not decided: ordering across messages / ping interleaving over real sockets (schedules), fragment accumulation across frames (Array append of message parts), handshake key (SHA-1 + Base64 composition: C15), unmask loop of receive (same text shape as send).',
+   technique='CBMC code contracts on extracted code regions with ghost wire stubs'),
  'C15': dict(level='proof', design='6 C15',
    text='encodeBase64 proved against an RFC 4648 specification macro for every input up to 4096 bytes (10^6 in the thorough tier) with a loop contract; '
         'more units are added as they are built.',
